@@ -100,7 +100,8 @@ def expect_ok(o, vars_, hist=False):
 
 class C09(SeqProp):
     pid = "C09"
-    spec_import = "Require Import PV.Spec.SpecC09."
+    spec_import = "Require Import PV.Spec.SpecC09.\nRequire PV.Proofs.C09Spec."
+    dom_fn = "PV.Proofs.C09Spec.dom09"     # the domain of the uniform spec-of-model theorem (counted in the evidence)
     spec_fn = "spec_c09"
     rule = ("scenario streams: (1) groups of Desc::new calls whose fq name / help / constant / variable label names come from an alphabet "
             "with ASCII letters, digits, _ : - space, non-ASCII letters and digits, empty and digit-led strings, names repeated among constant "
